@@ -236,6 +236,23 @@ fn fmt_colour(c: Rgb, form: ColorForm, st: &mut CssStyle) -> String {
     }
 }
 
+/// Write a name as a CSS identifier: characters that cannot stand for themselves in an
+/// identifier are escaped with a backslash, a leading digit as a hexadecimal escape.
+pub fn css_escape_ident(name: &str) -> String {
+    let mut s = String::new();
+    for (i, ch) in name.chars().enumerate() {
+        if i == 0 && ch.is_ascii_digit() {
+            s.push_str(&format!("\\{:x} ", ch as u32));
+        } else if ch.is_ascii_alphanumeric() || ch == '-' || ch == '_' || !ch.is_ascii() {
+            s.push(ch);
+        } else {
+            s.push('\\');
+            s.push(ch);
+        }
+    }
+    s
+}
+
 pub fn fmt_compound(c: &Compound) -> String {
     let mut s = String::new();
     for x in &c.0 {
@@ -243,11 +260,11 @@ pub fn fmt_compound(c: &Compound) -> String {
             Simple::Tag(t) => s.push_str(t),
             Simple::Class(c) => {
                 s.push('.');
-                s.push_str(c)
+                s.push_str(&css_escape_ident(c))
             }
             Simple::Id(i) => {
                 s.push('#');
-                s.push_str(i)
+                s.push_str(&css_escape_ident(i))
             }
             Simple::Star => s.push('*'),
             Simple::Nth { text, .. } => {
